@@ -39,9 +39,12 @@ class EvalCtx(object):
             return None
         self.nodes.add(node)
         self.level += 1
-        result = self._evaluate(node)  # type: ignore[no-untyped-call]
-        self.level -= 1
-        self.nodes.remove(node)
+        try:
+            result = self._evaluate(node)  # type: ignore[no-untyped-call]
+        finally:
+            # the context outlives a request that fails (ClassObject.ctx)
+            self.level -= 1
+            self.nodes.remove(node)
         return result  # type: ignore[no-any-return]
 
     def _evaluate(self, node):  # type: ignore[no-untyped-def]
